@@ -395,18 +395,30 @@ class Producer(object):
         # brokers. The finest granularity of success/failure is at the
         # payload (topic/partition) level.
         payloads = []
-        for (topic, partition), reqs in reqsByTopicPart.items():
-            # Message format 1 only once the broker has advertised its versions:
-            # while discovery is still pending (None) or fell back (0), the
-            # request may go out as Produce v0, which carries format 0.
-            if self.client._api_versions:
-                msgSet = create_message_set(reqs, self.codec, magic=1)
-            else:
-                msgSet = create_message_set(reqs, self.codec)
-            req = ProduceRequest(topic, partition, msgSet)
-            topicPart = TopicAndPartition(topic, partition)
-            payloads.append(req)
-            payloadsByTopicPart[topicPart] = req
+        try:
+            for (topic, partition), reqs in reqsByTopicPart.items():
+                # Message format 1 only once the broker has advertised its versions:
+                # while discovery is still pending (None) or fell back (0), the
+                # request may go out as Produce v0, which carries format 0.
+                if self.client._api_versions:
+                    msgSet = create_message_set(reqs, self.codec, magic=1)
+                else:
+                    msgSet = create_message_set(reqs, self.codec)
+                req = ProduceRequest(topic, partition, msgSet)
+                topicPart = TopicAndPartition(topic, partition)
+                payloads.append(req)
+                payloadsByTopicPart[topicPart] = req
+        except Exception:
+            # The message sets could not be built (e.g. the codec is not
+            # available). Nothing is sent: fail the requests of this batch
+            # instead of leaving their deferreds pending forever, and let
+            # _complete_batch_send log the error.
+            failure = Failure()
+            for d_list in deferredsByTopicPart.values():
+                for req_d in d_list:
+                    if not req_d.called:
+                        req_d.errback(failure)
+            raise
         # Make sure we have some payloads to send (and that a callback of one of
         # the deferreds failed above did not call stop() meanwhile)
         if not payloads or self.stopping:
